@@ -41,7 +41,7 @@ Universe == {
   Ev("k4", "a", 5, 4, <<Tg("e", "k1")>>),                       \* a deletion request
   Ev("k5", "a", 5, 4, <<Tg("e", "p2"), Tg("e", "x3")>>),        \* replaceable / addressable by id
   Ev("k6", "a", 5, 1, <<Tg3("e", "r2")>>),                      \* reference with a relay hint
-  Ev("k8", "a", 5, 1, <<Tg("e", "r1")>>),                       \* a second, older request for the same target
+  Ev("k8", "a", 5, 1, <<Tg("e", "raw:not an id"), Tg("e", "r1")>>),                       \* a second, older request for the same target
   Ev("k9", "b", 5, 4, <<Tg("e", "p2"), Tg("e", "x2")>>),        \* foreign replaceable / addressable by id
   Ev("k10", "a", 5, 2, <<Tg("e", "g1")>>),                     \* names an ephemeral event of its author
   Ev("k11", "b", 5, 5, <<Tg("e", "k1")>>),                     \* foreign request naming a deletion request
